@@ -4,6 +4,7 @@ import (
 	"bytes"
 	"encoding"
 	"fmt"
+	"reflect"
 	"unicode"
 	"unicode/utf16"
 	"unicode/utf8"
@@ -24,6 +25,17 @@ func newUnmarshalTextDecoder(typ *runtime.Type, structName, fieldName string) *u
 		typ:        typ,
 		structName: structName,
 		fieldName:  fieldName,
+	}
+}
+
+// setNull handles the JSON value null like encoding/json: a pointer, map,
+// slice or interface destination becomes its zero value, any other kind is
+// left unchanged. d.typ is the pointer type that implements TextUnmarshaler.
+func (d *unmarshalTextDecoder) setNull(p unsafe.Pointer) {
+	elem := d.typ.Elem()
+	switch elem.Kind() {
+	case reflect.Ptr, reflect.Map, reflect.Slice, reflect.Interface:
+		typedmemmove(elem, p, unsafe_New(elem))
 	}
 }
 
@@ -70,7 +82,7 @@ func (d *unmarshalTextDecoder) DecodeStream(s *Stream, depth int64, p unsafe.Poi
 			}
 		case 'n':
 			if bytes.Equal(src, nullbytes) {
-				*(*unsafe.Pointer)(p) = nil
+				d.setNull(p)
 				return nil
 			}
 		}
@@ -125,7 +137,7 @@ func (d *unmarshalTextDecoder) Decode(ctx *RuntimeContext, cursor, depth int64, 
 			}
 		case 'n':
 			if bytes.Equal(src, nullbytes) {
-				*(*unsafe.Pointer)(p) = nil
+				d.setNull(p)
 				return end, nil
 			}
 		}
